@@ -27,6 +27,8 @@ CONSTANTS Threads,        \* the association requests
           CountWhat,      \* "alive" | "established" | "tracked" (only threads of servers still registered with the AE)
           Servers,        \* the AE's listening servers (start_server may be called several times; the limit is the AE's)
           MaxRestarts,    \* how often a server may be shut down and started again (its associations go on)
+          Bad,            \* requests that are unacceptable for another reason as well (wrong called AE title while
+                          \* require_called_aet is set): over the limit they are still answered with the limit's reason
           MaxLen          \* bound on the exported history (scenario length)
 
 VARIABLES pc,        \* per thread: "idle" "negotiating" "accepting" "established" "rejecting" "ended"
@@ -59,6 +61,8 @@ Check(t) == /\ pc[t] = "negotiating"
             /\ seen' = [seen EXCEPT ![t] = Count]
             /\ IF Count > Max
                THEN pc' = [pc EXCEPT ![t] = "rejecting"] /\ reason' = [reason EXCEPT ![t] = <<2, 3, 2>>]
+               ELSE IF t \in Bad
+               THEN pc' = [pc EXCEPT ![t] = "rejecting"] /\ reason' = [reason EXCEPT ![t] = <<1, 1, 7>>]
                ELSE pc' = [pc EXCEPT ![t] = "accepting"] /\ UNCHANGED reason
             /\ Step(<<"check", t, 0>>) /\ UNCHANGED <<srv, gen>>
 \* A-ASSOCIATE-AC sent, is_established = True
@@ -80,9 +84,10 @@ NEstablished == Cardinality({t \in Threads : pc[t] = "established"})
 C14_Bound == NEstablished <= Max
 C14_BoundCommitted == Cardinality({t \in Threads : pc[t] \in {"accepting", "established"}}) <= Max
 \* a request is rejected only for the limit, with the transient / presentation-related / local-limit-exceeded reason
-C14_Reason == \A t \in Threads : pc[t] \in {"rejecting", "ended"} /\ reason[t] # <<>> => reason[t] = <<2, 3, 2>> /\ seen[t] > Max
+C14_Reason == \A t \in Threads : pc[t] \in {"rejecting", "ended"} /\ reason[t] # <<>> =>
+                                      IF seen[t] > Max THEN reason[t] = <<2, 3, 2>> ELSE (t \in Bad /\ reason[t] = <<1, 1, 7>>)
 \* (observation, not required by the property: when no more than Max requests ever overlap, nobody is rejected)
-NoNeedlessReject == Cardinality({t \in Threads : pc[t] # "idle"}) <= Max => \A t \in Threads : reason[t] = <<>>
+NoNeedlessReject == Cardinality({t \in Threads : pc[t] # "idle"}) <= Max => \A t \in Threads \ Bad : reason[t] = <<>>
 
 Quiet == \A t \in Threads : pc[t] \in {"idle", "established", "ended"}
 Export == (Quiet /\ Len(hist) > 0 /\ (Len(hist) >= MaxLen \/ \A t \in Threads : pc[t] # "idle")) => PrintT(<<"CASE", hist>>)
